@@ -72,6 +72,12 @@ def check(F, rep):
                     ok = True
                     why = "next = max(_, expected + 1)"
     rep.ob("strictly-greater", ok and copy_sources(now, nl) == {("call", "core::cmp::Ord::max", ())}, site(now, rb), "the installed value exceeds the expected (= last observed) value: %s" % why, skey(F, now, "next-gt-expected"))
+    # the new value is recomputed on every retry (not hoisted out of the loop)
+    if len(mx) == 1:
+        mb = mx[0][0]
+        ftg = {tg for t in ts for _, tg in t.failure if now.blocks[tg]["t"]["k"] != "unreachable"}
+        stale = any(rb in now.reachable(tg, removed_blocks={mb}) for tg in ftg)
+        rep.ob("strictly-greater", bool(ftg) and not stale, site(now, mb), "after a failed compare-exchange the value to install is recomputed from the freshly observed value before the next attempt (a value computed once from a stale read could repeat or undercut a timestamp another thread already handed out)", skey(F, now, "recompute-on-retry"))
     # retry: on Err the expected value is reloaded from the RMW's Err payload
     el = op_base(expected)
     srcs = copy_sources(now, el)
